@@ -78,7 +78,14 @@ def rule_a2(ctx):
   idx = ctx.index
   f = idx.lookup_method(S.LIST, '__setitem__')
   g = C.cfg_of(f.node)
-  negs = [t for t in g.nodes if t.kind == 'test' and A.unparse(t.ast) in ('step < 0', '0 > step')]
+  # locals by role: `<start>, <stop>, <step> = self._parse_slice(...)`
+  trip = [st.targets[0] for st in ast.walk(f.node) if isinstance(st, ast.Assign) and isinstance(st.value, ast.Call)
+          and (A.call_name(st.value) or '').endswith('_parse_slice') and isinstance(st.targets[0], ast.Tuple)
+          and len(st.targets[0].elts) == 3 and all(isinstance(e, ast.Name) for e in st.targets[0].elts)]
+  if not trip:
+    raise AnalysisError('List.__setitem__: the (start, stop, step) triple of _parse_slice vanished')
+  START, _STOP, STEP = [e.id for e in trip[0].elts]
+  negs = [t for t in g.nodes if t.kind == 'test' and A.unparse(t.ast) in (f'{STEP} < 0', f'0 > {STEP}')]
   if not negs:
     ctx.info('C02.a', f.fq + '#negative-step', 'no separate treatment of negative steps in slice assignment', f.loc)
     return
@@ -90,7 +97,7 @@ def rule_a2(ctx):
       seen, _ = g.reach(m, follow_exc=False)
       seen.add(m.id)
       # re-definitions of `start` inside the negative-step region (before the step is flipped)
-      flips = [k for k in g.nodes if k.id in seen and 'step' in D.node_defs(k)]
+      flips = [k for k in g.nodes if k.id in seen and STEP in D.node_defs(k)]
       region = seen
       if flips:
         after, _ = g.reach(flips[0], follow_exc=False)
@@ -98,10 +105,11 @@ def rule_a2(ctx):
       for i in region:
         k = g.nodes[i]
         d = D.node_defs(k)
-        if 'start' in d and d['start'] is not None:
-          names, exprs = D.backward_slice_names(f.node, A.names_read(d['start']))
-          txt = A.unparse(d['start'], 200)
-          dep = 'step' in names or 'step' in A.names_read(d['start']) or any('range(' in A.unparse(e, 200) and 'step' in A.unparse(e, 200) for e in exprs)
+        if START in d and d[START] is not None:
+          names, exprs = D.backward_slice_names(f.node, A.names_read(d[START]))
+          txt = A.unparse(d[START], 200)
+          dep = STEP in names or STEP in A.names_read(d[START]) or any(
+              'range(' in A.unparse(e, 200) and STEP in A.names_read(e) for e in exprs)
           if not dep:
             problems.append(f'line {k.lineno}: the ascending start is `{txt}`, which does not depend on the step: for '
                             f'|step| > 1 the lowest visited position is not stop + 1 and the values land on the wrong indices')
@@ -196,10 +204,20 @@ def rule_c(ctx):
            f.loc, '; '.join(problems))
 
 
-ALLOWED_NOOP_TESTS = {
-    S.LIST: {'value == pg_typing.MISSING_VALUE', 'old_value is value'},
-    S.DICT: {'old_value is value', 'key in self'},
-}
+def _is_noop_test_allowed(t):
+  """A test whose outcome makes the write primitive return without writing may
+  be: an identity comparison (`old is new`), a membership test (`key in self`),
+  or a comparison with the MISSING marker (= a removal request).  An equality
+  between values is not (1 == True)."""
+  if not (isinstance(t, ast.Compare) and len(t.ops) == 1):
+    return False
+  op = t.ops[0]
+  if isinstance(op, (ast.Is, ast.IsNot, ast.In, ast.NotIn)):
+    return True
+  if isinstance(op, (ast.Eq, ast.NotEq)):
+    return any('MISSING_VALUE' in A.unparse(x) for x in (t.left, t.comparators[0]))
+  return False
+
 
 
 def _under_negative_test(g, node, var):
@@ -253,7 +271,7 @@ def rule_d(ctx):
       for m, lab in k.succ:
         if m.kind == 'return' and (m.ast.value is None or A.unparse(m.ast.value) == 'None'):
           t = A.unparse(k.ast)
-          if t not in ALLOWED_NOOP_TESTS[cls_fq]:
+          if not _is_noop_test_allowed(k.ast):
             bad.append(f'`{t}` (line {k.lineno})')
     ctx.ob('C02.d', f.fq + '#noop', not bad,
            'the write primitive skips a write only when the very same object is stored again '
@@ -322,7 +340,11 @@ def rule_e(ctx):
   ctx.ob('C02.e', f.fq + '#order', not problems,
          'batched list updates are applied in descending KeyPath order (so earlier insertions/deletions '
          'do not shift later targets)', f.loc, '; '.join(problems))
-  ok = any(A.call_name(c) == 'updates.reverse' for c in A.calls_in(f.node))
+  rets = [r.value for r in ast.walk(f.node) if isinstance(r, ast.Return) and r.value is not None]
+  ret_names = {r.id for r in rets if isinstance(r, ast.Name)}
+  ok = any(isinstance(c.func, ast.Attribute) and c.func.attr == 'reverse' and isinstance(c.func.value, ast.Name)
+           and c.func.value.id in ret_names for c in A.calls_in(f.node)) or \
+      any((A.call_name(c) or '') in ('reversed', 'sorted') for r in rets for c in A.calls_in(r))
   ctx.ob('C02.e', f.fq + '#report-order', ok, 'the updates are reported in ascending order', f.loc,
          'updates no longer reversed back')
   # KeyPath ordering compares int keys numerically
